@@ -205,6 +205,13 @@ def run_case(case):
     has_obs_col = "observed" in df.columns
     U_has = df["observed"].notna().to_numpy() if has_obs_col else np.zeros(len(df), bool)
     if case["usage"] and not has_obs_col:
+        if np.asarray(U_ok, bool).any():
+            # consumption was supplied (on days without a temperature) and the data object carries none of it: the set is then
+            # predicted as if it were temperature-only, i.e. on days that have no consumption
+            return {"behaviour": ["usage_column_lost"],
+                    "violations": [{"clause": "supplied_usage_dropped_by_data_class", "key": key,
+                                    "detail": f"{int(np.asarray(U_ok, bool).sum())} day(s) carry usage in the input, data.df has no 'observed' column "
+                                              f"(pattern {case.get('pat')})"}]}
         return {"rejected": "data object dropped the usage column (all usage missing)"}
     try:
         if fam == "daily":
